@@ -9,6 +9,7 @@ from vlib import Case, Rng
 
 ID = "C18"
 PROPS_MODULE = "AmqModel.Props.C18"
+EXTRA_PROPS_MODULES = ["AmqModel.Props.Pass"]      # the registrations at the end of every pass of run_io_loop (Model/Pass.lean): no lost wake-up
 NONTRIVIAL_RULE = "a throttled phase (deregistered) with submissions pending and a later resume, or an e2e stall with >= 2 publishers"
 MODEL_SCOPE = "src/io_loop/mod.rs deregister_nonzero_channels / reregister_nonzero_channels / allocate_channel while deregistered / slot removal, the bounded queues of io_loop_handle.rs, against the REAL mio Poll (ready-token sets diffed with the model's readiness bookkeeping); the high/low-water switch inside run_io_loop is exercised end to end (real connection, stalled mock transport, publisher threads)"
 ASSUMPTIONS = [
@@ -213,7 +214,9 @@ def wire_cases(tier):
 
 
 def suites(tier, seed):
+    import passlog
     return [
+        passlog.suite("loop-passes", "bp", lambda: gen_e2e(tier, seed), "the stall-e2e cases"),
         Suite("water-mark-boundaries", "machine", lambda: __import__("machgen").water_mark_cases(Rng(seed + 18)), monitor=__import__("props.c01", fromlist=["x"]).monitor, nontrivial=lambda c, il: True, canon=__import__("machgen").canon_nondet, exhaustive=True,
               rule="queue entries whose sizes add up to the high-water mark exactly / one byte less / one byte more (2, 3, 5 frames of 5-7 queued): one handler run takes the whole queue whatever is buffered; everything reaches the wire once, in order"),
         Suite("throttle-sessions", "machine", lambda: gen(tier, seed), monitor=monitor, nontrivial=nontrivial, canon=mg.canon_nondet, candidate_ok=mg.candidate_ok,
